@@ -122,6 +122,39 @@ PROPERTIES = {
         assumptions=E_ASSUMPTIONS + ["responses are observed through a recording ResponseWriter that freezes status and headers at the first WriteHeader/Write (net/http's documented rule)",
                                      "binary transport: decoding the bytes of one message type as another type is outside the model (client mapping checked only where types coincide)",
                                      "request/header validation failures (BindingMiddleware exits), field paths of rule violations, and the TS client/server are not yet part of this check"]),
+    "C06": dict(mode="G", load_pkgs=["./internal/openapiv3"], pkgpath=MOD + "/internal/openapiv3", test_pkg="./internal/openapiv3", test_pkgname="openapiv3",
+                init=DEFAULT_INIT,
+                overlay={"internal/openapiv3/zz_verif_c06.go": "harness/c06/c06_schema.go", "internal/openapiv3/zz_verif_c06w.go": "harness/c06/c06_wire.go"},
+                harnesses=[dict(func="VerifC06Field", reach=["C06/field/decided", "C06/field/kf-nonfinite"], quick=dict(budget=300, parts=4), thorough=dict(budget=900, parts=8)),
+                           dict(func="VerifC06Flatten", reach=["C06/flatten/decided"], quick=dict(budget=120), thorough=dict(budget=400)),
+                           dict(func="VerifC06Oneof", reach=["C06/oneof/decided", "C06/oneof/kf-unset", "C06/oneof/kf-nested"], quick=dict(budget=200), thorough=dict(budget=600)),
+                           dict(func="VerifC06Unwrap", reach=["C06/unwrap/decided"], quick=dict(budget=200, parts=2), thorough=dict(budget=600, parts=4)),
+                           dict(func="VerifC06Builtin", reach=["C06/builtin/decided"], quick=dict(budget=60), thorough=dict(budget=120))],
+                bounds_text={"quick": "one message with one field of any of 17 kinds (incl. enum with proto or custom value names, Timestamp with 5 formats, plain child message) x singular/optional(+nullable)/repeated(1-2 elements)/map<string,T> x int64_encoding/enum_encoding/bytes_encoding/empty_behavior values, JSON name symbolic ([a-z]{1,3}); flatten with symbolic prefix ([a-z_]{0,3}), 1-2 flattened fields; discriminated oneof with 2 variants (message/scalar, nested/flattened, custom values, symbolic discriminator); root list/map unwrap and map-value unwrap; built-in Error/ValidationError with 1-2 violations"},
+                assumptions=["the wire form is the documented mapping M (DESIGN.md Appendix A); that the emitted Go code produces M is C04/C05's obligation and their findings carry over",
+                             "only definitions the annotation rules accept (Appendix B); fields marked required by buf.validate are outside this harness (the message is assumed to satisfy its own rules)",
+                             "pattern, format, description and examples are treated as annotations; YAML/JSON rendering of the document is outside (in-memory base.Schema objects are evaluated)",
+                             "parameters (path/query/header) are not evaluated here yet"]),
+    "C07": dict(
+        groups=[
+            dict(mode="G", load_pkgs=["./internal/tscommon"], pkgpath=MOD + "/internal/tscommon", test_pkg="./internal/tscommon", test_pkgname="tscommon",
+                 init=DEFAULT_INIT,
+                 overlay={"internal/tscommon/zz_verif_c07.go": "harness/c07/c07_types.go", "internal/tscommon/zz_verif_c06w.go": "harness/c06/c06_wire.go@tscommon"},
+                 harnesses=[dict(func="VerifC07Field", reach=["C07/field/decided", "C07/field/kf-zero-omitted", "C07/field/kf-empty-null"], quick=dict(budget=200, parts=2), thorough=dict(budget=600, parts=4)),
+                            dict(func="VerifC07Flatten", reach=["C07/flatten/decided"], quick=dict(budget=60), thorough=dict(budget=200)),
+                            dict(func="VerifC07Oneof", reach=["C07/oneof/decided", "C07/oneof/kf-nested", "C07/oneof/kf-unset", "C07/oneof/unset-decided"], quick=dict(budget=100), thorough=dict(budget=300)),
+                            dict(func="VerifC07Unwrap", reach=["C07/unwrap/decided"], quick=dict(budget=100), thorough=dict(budget=300))]),
+            dict(mode="G", load_pkgs=["./internal/tsservergen"], pkgpath=MOD + "/internal/tsservergen", test_pkg="./internal/tsservergen", test_pkgname="tsservergen",
+                 init=DEFAULT_INIT,
+                 overlay={"internal/tsservergen/zz_verif_c07.go": "harness/c07/c07_server.go"},
+                 harnesses=[dict(func="VerifC07HandlerArg", reach=["C07/handler/decided", "C07/handler/kf-path"], quick=dict(budget=100), thorough=dict(budget=300)),
+                            dict(func="VerifC07SameDeclarations", reach=["C07/decls/decided"], quick=dict(budget=200), thorough=dict(budget=600))]),
+        ],
+        bounds_text={"quick": "types: one message with one field of any of 17 kinds (enum with proto or symbolic custom value names [a-z0-9]{1,3}, Timestamp x 5 formats, child message) x singular/optional(+nullable)/repeated/map<string,T> x int64/enum/bytes encodings/empty_behavior; flatten with 4 prefixes and a proto3-optional (nullable or not) child field; discriminated oneof (2 variants, message/scalar, nested/flattened, custom values); root list/map unwrap and map-value unwrap; handler argument: GET/DELETE route with a path variable and a query parameter of 10 scalar kinds each (int64_encoding NUMBER on the query field); declarations: both complete TS generators on one file with a response field of 8 kinds x repeated/optional/nullable/flatten/encodings"},
+        assumptions=["the wire form is the documented mapping M (DESIGN.md Appendix A); that the emitted Go code produces M is C04/C05's obligation",
+                     "the TypeScript side is the text the real emitters print, read by a small interpreter for the emitted type grammar (interface, string-literal union, object-literal union branches, A & B, Record<string,T>, T[], ?, | null); TypeScript's structural typing beyond this grammar and type checking of the module are outside",
+                     "JSON names and flatten prefixes are concrete in these harnesses (the oracle parses emitted text); enum literal values and map keys are symbolic",
+                     "non-finite floats (strings on the wire) are reported under C06"]),
     "C19": dict(mode="G", load_pkgs=["./internal/openapiv3"], pkgpath=MOD + "/internal/openapiv3", test_pkg="./internal/openapiv3", test_pkgname="openapiv3",
                 init=DEFAULT_INIT,
                 overlay={"internal/openapiv3/zz_verif_c19.go": "harness/c19/c19_rules.go"},
